@@ -29,6 +29,7 @@ type Obligation struct {
 	goal   string
 	nAssert int
 	nDecl  int
+	scope  int // block tag of assumptions that belong to this obligation only
 	ctx    *Ctx
 	Result SolverResult
 	block  int      // block of the verified function the obligation arises in
@@ -93,6 +94,9 @@ type Exec struct {
 	tailPaths int
 	recName  string
 	recRegs  []string
+	curScope  int
+	muted     bool   // commutation runs: obligations are not recorded
+	mutedExit string // guard of a return reached during a muted run
 }
 
 func (x *Exec) cellKey(a *ssa.Alloc) string {
@@ -125,6 +129,15 @@ func (v *Verifier) srcLine(p *Program, pos token.Pos) (string, string) {
 
 func (x *Exec) oblige(st *State, kind string, pos token.Pos, goal string, tag string, props []string) {
 	if x.ghost {
+		return
+	}
+	if x.root().muted {
+		// second execution of code whose obligations are generated elsewhere
+		switch kind {
+		case "ensures", "inv-pres", "inv-init", "decreases", "back-when", "exit-when":
+		default:
+			x.assumeG(st, goal)
+		}
 		return
 	}
 	if x.fc != nil && x.fc.Skip[kind] {
@@ -172,7 +185,7 @@ func (x *Exec) oblige(st *State, kind string, pos token.Pos, goal string, tag st
 	// assume it afterwards (assert-then-assume); obligations at the end of a
 	// path (postconditions, invariant preservation) need not be assumed
 	switch kind {
-	case "ensures", "inv-pres", "inv-init", "decreases", "back-when", "exit-when":
+	case "ensures", "inv-pres", "inv-init", "decreases", "back-when", "exit-when", "maporder", "keys-sorted":
 	default:
 		x.c.assume(implies(st.guard, goal))
 	}
@@ -311,6 +324,7 @@ func (x *Exec) run(st0 *State) {
 			}
 		}
 	}
+	x.keysUseObligations(st0)
 	// reverse postorder ignoring back edges
 	order := x.rpo()
 	incoming := map[*ssa.BasicBlock]*blockIn{}
@@ -829,6 +843,7 @@ func (x *Exec) enterLoop(li *loopInfo, edges []edgeState) *State {
 		}
 	}
 	x.loopSnap[li.header] = st.clone()
+	x.mapOrderCheck(li, st.clone())
 	return st
 }
 
@@ -997,7 +1012,7 @@ func (x *Exec) execTail(b *ssa.BasicBlock, from int, st *State) {
 }
 
 func (x *Exec) execBlockWith(b *ssa.BasicBlock, st *State, push func(from, to *ssa.BasicBlock, s *State)) {
-	if !x.inline {
+	if !x.inline && !x.muted {
 		x.c.curBlock = b.Index
 	}
 	for _, in := range b.Instrs {
@@ -1040,6 +1055,10 @@ func (x *Exec) doReturn(st *State, r *ssa.Return) {
 	}
 	if x.inline {
 		x.rets = append(x.rets, retRec{st: st, results: res})
+		return
+	}
+	if x.muted {
+		x.mutedExit = st.guard
 		return
 	}
 	x.checkEnsures(st, res, r.Pos())
